@@ -3,7 +3,7 @@ from pyvc.verify import Post, Case, Equiv
 from contracts import common
 
 PROPERTY = 'C03'
-REF_MODULES = ['ref_auto', 'ref_core', 'ref_match', 'ref_reduce', 'ref_extra', 'ref_stream']
+REF_MODULES = ['ref_auto', 'ref_core', 'ref_match', 'ref_reduce', 'ref_extra', 'ref_stream', 'ref_registry', 'h_path']
 
 
 def config(cfg):
@@ -47,6 +47,12 @@ def contracts():
     from contracts import C08
     cs += common.shared(C08, ['core.arg_val', 'core._ArgValuator.mode'])
     cs += common.shared(X_ctor, ['core._ArgValuator.__init__'])
+    # further callees of the handlers: text paths, Path construction, the registry lookup behind list iteration
+    from contracts import C18 as _c18, C13 as _c13
+    cs += common.shared(extra, ['core.Path.from_text'])
+    cs += common.shared(_c18, ['core.Path.__init__'])
+    cs += common.shared(_c13, ['core.TargetRegistry.get_handler', 'core.TargetRegistry.get_type_map', 'core.TargetRegistry._get_closest_type'])
+    cs += common.shared(X_ctor, ['core.CoalesceError.__init__'])
     return cs
 
 
